@@ -4,12 +4,14 @@ import time
 from vlib.common import finish
 from vlib.bounded import Bounded
 from harness import c12 as driver
+from checks._proof import proof_subobligations
 
 PROP = 'C12'
 
 
 def run():
     t0 = time.time()
+    pv, pu, pe, ppart, passumed = proof_subobligations(PROP, ['contracts.c12_tables'], ['ak.color', 'ak.ppobj'])
     b = Bounded(PROP, 'harness.c12')
     driver.run(b)
     sz = driver.sizes(b.tier)
@@ -29,7 +31,13 @@ def run():
              f"non-trivial = the table shows at least one truncated record cell, break line or skipped-records line",
         exhaustive=False,
         extra={'families': {'A_cells': 'exhaustive', 'B_accounting': 'exhaustive', 'C_random': 'seeded'}})
-    return finish(PROP, 'exploration', b.violations(), [], b.errors, cov,
+    cov.update(ppart)
+    _seen, _viol = set(), []
+    for _v in pv + b.violations():
+        if _v.key not in _seen:
+            _seen.add(_v.key)
+            _viol.append(_v)
+    return finish(PROP, 'exploration', _viol, pu, pe + b.errors, cov, passumed +
                   ["values and titles contain no line breaks and only characters of visible width 1 "
                    "(a line break inside a value is outside 'rectangular')",
                    "configured min <= max for every column; at least one visible column",
